@@ -18,13 +18,68 @@ package bluemonday
 //@   ensures wfp(p) && p.initialized
 //@   modifies r :: r == p && !p.initialized
 
+//@ func bluemonday.normaliseElementName
+//@   ensures result == normalise(str)
+//@   modifies nothing
+
+//@ func (*bluemonday.Policy).matchRegex
+//@   requires wfp(p) && p.initialized
+//@   modifies nothing
+//@   ensures result0 != nil && fresh(result0)
+//@   ensures result1 <==> (exists r *regexp.Regexp :: r in p.elsMatchingAndAttrs && rmatch(r, elementName))
+//@   loop 0 "for regex, attrs := range p.elsMatchingAndAttrs"
+//@     invariant matched <==> (exists r *regexp.Regexp :: $visited(r) && rmatch(r, elementName))
+//@   loop 1 "for k, v := range attrs"
+
 //@ func (*bluemonday.Policy).sanitize
 //@   requires wfp(p) && r != nil && w != nil
 //@   requires[C16] !outFailed
 //@   modifies ghost outFailed, outN, outLast, outCount, tzCur, tzPrev, tzErr
+//@   modifies r :: r == p && !p.initialized
 //@   ensures[C16] outFailed ==> result != nil
 //@   ensures[C16] result == nil ==> tzErr == io.EOF
+//@   at-call (io.StringWriter).WriteString(w, s)
+//@     assert[C01] emitC01(p, token, s) || (p.allowUnsafe && token.Type == 1 && s == token.Data && isScriptStyle(mostRecentlyStartedToken) && elAllowed(p, mostRecentlyStartedToken))
+//@     assert[C05] emitC05(p, token, tzPrev, s)
 //@   loop 0 "for {"
 //@     invariant wfp(p) && p.initialized
 //@     invariant skipClosingTag <==> len(closingTagToSkipStack) > 0
 //@     invariant[C16] !outFailed
+//@     invariant[C05] tzCur.Type == 2 ==> mostRecentlyStartedToken == normalise(tzCur.Data)
+//@   loop 1 "for regex := range p.elsMatchingAndAttrs"
+//@     invariant match <==> (exists r *regexp.Regexp :: $visited(r) && rmatch(r, token.Data))
+//@     invariant wfp(p) && p.initialized
+//@     invariant skipClosingTag <==> len(closingTagToSkipStack) > 0
+//@     invariant[C16] !outFailed
+
+//@ func (*bluemonday.asStringWriter).WriteString
+//@   requires a.Writer != nil
+//@   requires[C16] !outFailed
+//@   modifies ghost outFailed, outN, outLast, outCount
+//@   ensures outFailed == (result1 != nil)
+//@   ensures outN == old(outN) + 1 && outLast == s && outCount == old(outCount) + 1
+
+//@ func (*bluemonday.Policy).sanitizeWithBuff
+//@   requires wfp(p) && r != nil
+//@   requires[C16] !outFailed
+//@   modifies ghost outFailed, outN, outLast, outCount, tzCur, tzPrev, tzErr
+//@   modifies r :: r == p && !p.initialized
+//@   ensures result != nil && fresh(result)
+//@   ensures[C16] tzErr != io.EOF ==> bufEmpty(result)
+//@   ensures[C16] outFailed ==> bufEmpty(result)
+
+//@ func (*bluemonday.Policy).SanitizeReader
+//@   requires wfp(p) && r != nil
+//@   requires[C16] !outFailed
+//@   modifies ghost outFailed, outN, outLast, outCount, tzCur, tzPrev, tzErr
+//@   modifies r :: r == p && !p.initialized
+//@   ensures result != nil && fresh(result)
+//@   ensures[C16] tzErr != io.EOF ==> bufEmpty(result)
+
+//@ func (*bluemonday.Policy).SanitizeReaderToWriter
+//@   requires wfp(p) && r != nil && w != nil
+//@   requires[C16] !outFailed
+//@   modifies ghost outFailed, outN, outLast, outCount, tzCur, tzPrev, tzErr
+//@   modifies r :: r == p && !p.initialized
+//@   ensures[C16] outFailed ==> result != nil
+//@   ensures[C16] result == nil ==> tzErr == io.EOF
